@@ -19,7 +19,7 @@ def view(ex, info):
                      [ex.lab(p) for p in itertools.islice(e.path, G.CHAIN_BOUND + 1)]])
     ac = [ex.lab(e) for e in itertools.islice(ex.root.all_children, G.REACH_BOUND)]
     placed = []
-    if info.get("target") is not None and info["op"]["op"] in (PLACING_SEQ if info["kind"] == "seq" else ("setitem",)):
+    if info.get("target") is not None and info["op"]["op"] in (PLACING_SEQ if info["kind"] == "seq" else ("setitem", "update_items")):
         kids = ex.children(info["target"])
         for tag, v in info.get("args") or []:
             if tag == "elem":
@@ -110,12 +110,21 @@ def check(ex, info):
                 fail("removed-is-unreachable", "removed element not under the container", "still reachable")
                 break
         placing = (info["kind"] == "seq" and op["op"] in PLACING_SEQ) or \
-                  (info["kind"] == "map" and op["op"] == "setitem" and G.kind_of_element(target) == "sparse")
+                  (info["kind"] == "map" and op["op"] in ("setitem", "update_items")
+                   and G.kind_of_element(target) == "sparse")
         if placing:
-            for tag, v in info.get("args") or []:
+            if info["kind"] == "map":
+                ks = [op["k"]] if op["op"] == "setitem" else [k for k, _ in op["items"]]
+                last = {}
+                for k, a in zip(ks, info.get("args") or []):
+                    last[k] = a        # a later value for the same key replaces an earlier one
+                todo = [(k, a) for k, a in last.items()]
+            else:
+                todo = [(None, a) for a in info.get("args") or []]
+            for k, (tag, v) in todo:
                 if tag != "elem":
                     continue
-                if info["kind"] == "map" and not isinstance(v, ex.needed_schema(target, op["k"])):
+                if info["kind"] == "map" and not isinstance(v, ex.needed_schema(target, k)):
                     continue
                 if not any(c is v for c in now):
                     fail("placed-is-child", "argument among the container's children", "absent")
